@@ -56,12 +56,18 @@ def main():
         subprocess.run(['rsync', '-a', '--exclude', '.git', '--exclude', '__pycache__',
                         '/repo/', scratch + '/'], check=True)
         try:
-            path = os.path.join(scratch, m['file'])
-            src = open(path).read()
-            if src.count(m['old']) != 1:
-                print('%-40s MUTANT DOES NOT APPLY (%d matches)' % (m['id'], src.count(m['old'])))
+            edits = m.get('edits') or [(m['file'], m['old'], m['new'])]
+            applies = True
+            for fname, old_, new_ in edits:
+                path = os.path.join(scratch, fname)
+                src = open(path).read()
+                if src.count(old_) != 1:
+                    print('%-40s MUTANT DOES NOT APPLY (%d matches in %s)' % (m['id'], src.count(old_), fname))
+                    applies = False
+                    break
+                open(path, 'w').write(src.replace(old_, new_))
+            if not applies:
                 continue
-            open(path, 'w').write(src.replace(m['old'], m['new']))
             base = baseline(scratch) if args.baseline else ''
             for prop in props:
                 rc, dt, lines = run_check(prop, scratch, args.tier)
